@@ -170,6 +170,9 @@ func DrawConfig(seed uint64, prop string, idx int) simrt.Config {
 
 // RunOne executes one run in a fresh bubble.
 func RunOne(t *testing.T, h Harness, prop string, plan any, cfg simrt.Config) (rc *RunCtx, s *simrt.Sim) {
+	if os.Getenv("VERIF_RACE_ALL") == "1" {
+		cfg.Race = true // exploration aid, see verifctl
+	}
 	rc = &RunCtx{Prop: prop, Faults: map[string]int{}, Probes: map[string]int{}}
 	func() {
 		defer func() {
@@ -192,6 +195,16 @@ func RunOne(t *testing.T, h Harness, prop string, plan any, cfg simrt.Config) (r
 		if f := s.Failure(); f != nil && rc.failure == nil {
 			rc.failure = f
 		}
+	}
+	sort.Strings(rc.Stats.MapRaces)
+	if rc.failure == nil && len(rc.Stats.MapRaces) > 0 {
+		// one violation per pair of access sites, so that a listed finding does not cover a different pair
+		rc.failure = &simrt.Failure{Class: prop + ".map-race",
+			Witness: "two goroutines access a map without synchronisation between them; when they overlap the Go runtime aborts the process (" + rc.Stats.MapRaces[0] + ")",
+			Detail:  strings.Join(rc.Stats.MapRaces, "; ")}
+	}
+	if cfg.Race && simrt.RaceBuild {
+		rc.Probes["race-tracking-on"]++
 	}
 	if rc.failure == nil {
 		h.Check(prop, plan, rc)
